@@ -327,6 +327,10 @@ pub fn c03(ctx: &mut Ctx) -> (u64, String) {
     if ctx.thorough() {
         c03_e2e::<ScancodeSet1>(ctx, "set1", ScancodeSet1::new, 1);
     }
+    ctx.sample_run("layout:direct:azerty", &["map:Q:16:Map", "map:Key2:144:Ignore"]);
+    ctx.sample_run("layout:any:uk105", &["map:Key3:17:Map", "map:Oem8:144:Map"]);
+    ctx.sample_run("layout:anyref:de105", &["map:Q:144:Map", "map:Key7:84:Ignore", "map:OemMinus:144:Map"]);
+    ctx.sample_run("kb:wrap-dvp104:set2:Map", &["type:0E", "type:16", "type:55", "type:12", "type:55"]);
     ctx.sample(json!({"layout": "azerty", "key": "Q", "level": "base", "reference": "a"}));
     ctx.sample(json!({"layout": "uk105", "key": "Key3", "level": "shift", "reference": "£"}));
     ctx.sample(json!({"layout": "de105", "key": "Q", "level": "altgr (ralt, or lalt+ctrl in Ignore mode)", "reference": "@ (or no distinct character)"}));
@@ -511,6 +515,8 @@ pub fn c09(ctx: &mut Ctx) -> (u64, String) {
     if ctx.thorough() {
         c09_via_decoder(ctx);
     }
+    ctx.sample_run("layout:direct:azerty", &["map:Q:57:Map", "map:Q:57:Ignore", "map:M:20:Map"]);
+    ctx.sample_run("layout:direct:de105", &["map:Y:20:Map", "map:Z:24:Map", "map:Oem1:20:Map"]);
     ctx.sample(json!({"layout": "azerty", "key": "Q (types 'a')", "modifiers": "rctrl+lshift+capslock", "mode": "Map", "reference": "U+0001"}));
     ctx.sample(json!({"layout": "de105", "key": "Oem1 (types 'ö')", "modifiers": "lctrl", "reference": "same as mode Ignore: 'ö'"}));
     (nt, "30 layout objects x 124 keys x all 512 modifier values x both modes; non-trivial = (letter key, Ctrl held, no Alt) points where the control character is demanded".into())
@@ -673,6 +679,8 @@ pub fn c10(ctx: &mut Ctx) -> (u64, String) {
             }
         });
     }
+    ctx.sample_run("layout:direct:de105", &["map:Oem1:48:Map", "map:Oem1:50:Map", "map:Oem6:48:Map"]);
+    ctx.sample_run("ed:wrap-azerty:Ignore", &["key:CapsLock:Down", "key:M:Down", "key:Oem1:Down"]);
     ctx.sample(json!({"layout": "de105", "key": "Oem1 (ö/Ö)", "modifiers": "capslock", "reference": "Ö; with capslock+rshift: ö"}));
     ctx.sample(json!({"layout": "azerty", "key": "M (',' / '?')", "modifiers": "capslock", "reference": "',' (unchanged)"}));
     (nt, "30 layout objects x 124 keys x all 256 CapsLock-off modifier values paired with their CapsLock-on twin x both modes; non-trivial = twin pairs on letter keys".into())
@@ -773,6 +781,7 @@ pub fn c11(ctx: &mut Ctx) -> (u64, String) {
         }
     }
     ctx.part("table:five predicates x 512 modifier values", json!({"evaluations": 2560, "mismatches": bad}));
+    ctx.sample_run("layout:direct:uk105", &["map:Key4:144:Map", "map:Key4:84:Ignore", "map:Key4:80:Map", "map:Key4:272:Map"]);
     ctx.sample(json!({"key": "A", "class": "shift=1 ctrl=0 altgr=0 caps=0", "members": ["lshift", "rshift", "lshift+rshift", "lshift+lalt", "rshift+rctrl2", "..."], "oracle": "all members type the same"}));
     (nt, "30 layout objects x 124 keys x 2 modes x all 512 modifier values, partitioned into the 16 (32 for the 11 NumLock-sensitive numpad keys) abstract classes: every member is compared with the class representative; plus the five public predicates on all 512 values; non-trivial = comparisons between two distinct members of one class".into())
 }
@@ -1056,6 +1065,7 @@ pub fn c15(ctx: &mut Ctx) -> (u64, String) {
             judge_c15(l, k, m, mode, out, &ret)
         });
     }
+    ctx.sample_run("layout:direct:no105", &["map:Numpad7:37:Map", "map:Numpad7:16:Map", "map:NumpadPeriod:16:Map", "map:NumpadPeriod:0:Map", "map:NumpadEnter:3:Ignore"]);
     ctx.sample(json!({"key": "Numpad7", "numlock": "off", "modifiers": "lshift+lctrl+capslock", "reference": "RawKey(Home)"}));
     ctx.sample(json!({"key": "NumpadPeriod", "layout": "no105", "numlock": "on", "reference": "','"}));
     (nt, "30 layout objects x (17 numpad + 6 editing keys) x all 512 modifier values x both modes against R-NUMPAD/R-EDIT; every point is judged".into())
@@ -1119,6 +1129,7 @@ pub fn c16(ctx: &mut Ctx) -> (u64, String) {
             None
         });
     }
+    ctx.sample_run("layout:anyref:jis109", &["map:F5:511:Map", "map:Oem9:1:Map", "map:Numpad1:0:Ignore", "map:Numpad1:16:Ignore"]);
     ctx.sample(json!({"key": "F5", "modifiers": "any of 512", "reference": "RawKey(F5) on every layout"}));
     ctx.sample(json!({"key": "Numpad1", "modifiers": "numlock off", "reference": "RawKey(End) is the only raw key other than Numpad1 it may decode to"}));
     (nt, "30 layout objects x 124 keys x all 512 modifier values x both modes; non-trivial = points on the 52 character-less keys plus every point whose output is a raw key".into())
@@ -1307,6 +1318,9 @@ pub fn c17(ctx: &mut Ctx) -> (u64, String) {
         ctx.evaluations += n;
         ctx.part("replay:X, Y, change_layout, X over all 10x10 pairs, both wrapper forms", json!({"histories_checked": n}));
     }
+    ctx.sample_run("layout:anyref:azerty", &["map:Q:16:Map"]);
+    ctx.sample_run("layout:direct:azerty", &["map:Q:16:Map"]);
+    ctx.sample_run("ed:anyref-no105:Map", &["key:Oem1:Down", "layout:5", "key:Oem1:Down"]);
     ctx.sample(json!({"wrapper": "&AnyLayout::Azerty", "key": "Q", "modifiers": "numlock", "reference": "what Azerty gives: 'a'"}));
     let _ = (Keyboard::new(ScancodeSet2::new(), Echo(0), HandleControl::Ignore), BTreeSet::<u8>::new());
     (nt, "10 variants x 2 wrapper forms x 124 keys x 512 modifier values x 2 modes, each compared with the wrapped layout called directly; change_layout over all 10 x 10 ordered pairs; every point is a comparison".into())
